@@ -214,6 +214,11 @@ fn main() {
             warm_builtins(prng::mix(&[opts.seed, prng::purpose("warm")]));
             props::c15::run(&opts)
         }
+        "c04" => {
+            println!("VERIF_SEED={}", opts.seed);
+            warm_builtins(prng::mix(&[opts.seed, prng::purpose("warm")]));
+            props::c04::run(&opts)
+        }
         "c09" => {
             println!("VERIF_SEED={}", opts.seed);
             warm_builtins(prng::mix(&[opts.seed, prng::purpose("warm")]));
@@ -289,6 +294,7 @@ fn main() {
             let prop = file["property"].as_str().unwrap_or("").to_string();
             let reproduced = match prop.as_str() {
                 "C13" => props::c13::replay(&file),
+                "C04" => props::c04::replay(&file),
                 "C09" => props::c09::replay(&file),
                 "C14" => props::c14::replay(&file),
                 "C15" => props::c15::replay(&file),
